@@ -116,6 +116,7 @@ type mLease struct {
 	group      dtypes.Group
 	key        string
 	hosts      []string
+	swapHosts  bool
 	reserved   bool // harness holds a reservation for its order
 	lastSent   int  // version of the last manifest announced (0 = none)
 	closedAt   int  // scheduler step at which EventLeaseClosed was delivered (0 = not closed)
@@ -141,12 +142,32 @@ func (x *c14) manifestFor(l *mLease, version int) (*manifest.Manifest, *manifest
 	for i, res := range l.group.GroupSpec.Resources {
 		svc := manifest.Service{Name: fmt.Sprintf("svc%d", i), Image: fmt.Sprintf("img:v%d", version), Resources: res.Resources, Count: res.Count}
 		if i == 0 && len(l.hosts) > 0 {
-			svc.Expose = []manifest.ServiceExpose{{Port: 80, Proto: manifest.TCP, Global: true, Hosts: l.hosts}}
+			svc.Expose = []manifest.ServiceExpose{{Port: 80, Proto: manifest.TCP, Global: true, Hosts: l.hostsFor(version)}}
 		}
 		g.Services = append(g.Services, svc)
 	}
 	m := manifest.Manifest{g}
 	return &m, &g
+}
+
+// hostsFor: with swapHosts every second manifest version asks for another hostname than the first one
+// (an update that drops one hostname and claims another).
+func (l *mLease) hostsFor(version int) []string {
+	if len(l.hosts) == 0 || !l.swapHosts || version%2 == 1 {
+		return l.hosts
+	}
+	return []string{"alt-" + l.hosts[0]}
+}
+
+// everHosts: every hostname some manifest version of the lease asked for.
+func (l *mLease) everHosts() []string {
+	if len(l.hosts) == 0 {
+		return nil
+	}
+	if l.swapHosts && l.lastSent >= 2 {
+		return []string{l.hosts[0], "alt-" + l.hosts[0]}
+	}
+	return l.hosts
 }
 
 func versionOf(g *manifest.Group) int {
@@ -228,6 +249,7 @@ func runC14(r *core.Run) *core.Violation {
 		l.key = mquery.LeasePath(l.id)
 		if r.Bool(60, "lease.hosts") {
 			l.hosts = []string{fmt.Sprintf("app%d.example.com", i)}
+			l.swapHosts = r.Bool(40, "lease.swap-hosts")
 		}
 		x.leases = append(x.leases, l)
 		// the bid engine reserved resources for the order before the lease was won
@@ -562,11 +584,11 @@ func (x *c14) finish() *core.Violation {
 			r.Count("probe:hostnames-release-checked")
 			other := dtypes.DeploymentID{Owner: testAddr(9).String(), DSeq: 999}
 			var herr error
-			if !returnsPromptly(func() { herr = <-x.svc.HostnameService().CanReserveHostnames(l.hosts, other) }) {
+			if !returnsPromptly(func() { herr = <-x.svc.HostnameService().CanReserveHostnames(l.everHosts(), other) }) {
 				panic("harness: hostname service did not answer")
 			}
 			if herr != nil {
-				return r.Flag("C14/hostnames-not-released", "lease %s is closed and torn down but its hostnames %v cannot be reserved by another deployment: %v", l.key, l.hosts, herr)
+				return r.Flag("C14/hostnames-not-released", "lease %s is closed and torn down but its hostnames %v cannot be reserved by another deployment: %v", l.key, l.everHosts(), herr)
 			}
 		}
 		if l.closedAt != 0 && l.closedWith {
